@@ -14,11 +14,9 @@ theorem mkField_fields (m : Mesh) (dim : Nat) (data : NDA (List Rat)) (valid : N
     split at h
     · cases h
     · rename_i vd' hvd
-      split at h
-      · cases h
-      · injection h with h
-        subst h
-        exact ⟨rfl, rfl, rfl, rfl, by omega, hvd⟩
+      injection h with h
+      subst h
+      exact ⟨rfl, rfl, rfl, rfl, by omega, hvd⟩
 
 theorem meshOf_spec (p1 p2 : List Rat) (n : List Nat) (m : Mesh) (h : meshOf p1 p2 n = .ok m) :
     m.n = n ∧ m.subs = [] ∧ n.length = p1.length ∧ (∀ k ∈ n, k ≠ 0) ∧
@@ -134,35 +132,6 @@ theorem fromCells_spec (g : Grid) (sc : Option (List (String × Region))) (f' : 
               exact validOf_spec g nx ny nz hn _ valid hvalid i j k
 
 /-! ## the name scan -/
-
-/-- array names the reader takes for component labels -/
-def isLabel (a : VArr) : Bool := a.name != "field" && a.name != "valid" && a.name != "norm"
-
-theorem scan_vdims (l : List VArr) (i : Nat) (s : Scan) :
-    (scan l i s).vdims = s.vdims ++ (l.filter isLabel).map fun a => a.name := by
-  induction l generalizing i s with
-  | nil => simp [scan]
-  | cons a as ih =>
-    simp only [scan]
-    split
-    · rename_i h1
-      rw [ih]
-      simp [List.filter, isLabel, h1]
-    · rename_i h1
-      split
-      · rename_i h2
-        rw [ih]
-        simp [List.filter, isLabel, h2]
-      · rename_i h2
-        split
-        · rename_i h3
-          rw [ih]
-          have : isLabel a = true := by simp [isLabel, h1, h2, h3]
-          simp [List.filter, this]
-        · rename_i h3
-          rw [ih]
-          have h3' : a.name = "norm" := not_not.mp h3
-          simp [List.filter, isLabel, h3']
 
 /-- the index the scan returns is that of an array called `field`, and no later array has that name -/
 theorem scan_fieldIdx (l : List VArr) (i : Nat) (s : Scan) (fi : Nat) (h : (scan l i s).fieldIdx = some fi) :
